@@ -173,7 +173,7 @@ def check_one(args):
             r = os.path.join(out, 'r-%d' % k)
             os.makedirs(r, exist_ok=True)
             env = 'VERIF_REPO=%s VERIF_REPLAY_DIR=%s VERIF_EVIDENCE_DIR=%s' % (wt, r, r)
-            rc, o = sh('%s /verif/bin/check %s --workers 3' % (env, P), '/verif', 1500)
+            rc, o = sh('%s /verif/bin/check %s --workers 3 %s' % (env, P, os.environ.get('AUTOMUT_ARGS', '')), '/verif', 1500)
             cls = re.search(r'class:\s*(\S+)', o)
             if rc == 1:
                 got.append('%s[%s]' % (P, cls.group(1) if cls else '?'))
